@@ -3,6 +3,7 @@ package main
 // Command generators. One PRNG (seeded from VERIF_SEED) drives every choice.
 
 import (
+	"strconv"
 	"fmt"
 	"math/big"
 	"math/rand"
@@ -561,6 +562,218 @@ func init() {
 }
 
 // a counter brought next to an int64 boundary and then moved onto, or just past, it
+
+// ---- LCS: two strings built from a small alphabet (many equally long common subsequences, so the
+// choice among them and the reported ranges are exercised), then every reply form ----
+func (g *Gen) lcsString() string {
+	switch g.r.Intn(10) {
+	case 0:
+		return ""
+	case 1:
+		return g.pick("ohmytext", "mynewtext", "ab", "aab", "h\xc3\xa9llo", "\xff\xfe", "\xfe", "a\x00b", "\xe2\x82\xac")
+	}
+	alpha := g.pick("ab", "abc", "ab\xff", "xyz\xc3")
+	n := g.r.Intn(14)
+	b := make([]byte, n)
+	for i := range b {
+		b[i] = alpha[g.r.Intn(len(alpha))]
+	}
+	return string(b)
+}
+
+func (g *Gen) lcsArgs(k1, k2 string) []string {
+	a := []string{g.kw("lcs"), k1, k2}
+	switch g.r.Intn(8) {
+	case 0:
+	case 1:
+		a = append(a, g.kw("LEN"))
+	case 2:
+		a = append(a, g.kw("IDX"))
+	case 3:
+		a = append(a, g.kw("IDX"), g.kw("MINMATCHLEN"), g.pick("0", "1", "2", "3", "-1", "100"))
+	case 4:
+		a = append(a, g.kw("IDX"), g.kw("MINMATCHLEN"), g.pick("1", "2", "3"), g.kw("WITHMATCHLEN"))
+	case 5:
+		a = append(a, g.kw("IDX"), g.kw("WITHMATCHLEN"))
+	case 6:
+		a = append(a, g.pick("LEN", "IDX", "MINMATCHLEN", "WITHMATCHLEN", "BOGUS"), g.pick("IDX", "LEN", "2", "x", "WITHMATCHLEN"))
+	default:
+		a = append(a, g.kw("MINMATCHLEN"), g.pick("2", "x", ""), g.kw("IDX"))
+	}
+	return a
+}
+
+func (g *Gen) lcsMacro(c int) []Op {
+	k1, k2 := g.key(), g.key()
+	var ops []Op
+	first := ""
+	if g.chance(0.85) {
+		first = g.lcsString()
+		ops = append(ops, mkOp(c, "SET", k1, first))
+	}
+	if g.chance(0.85) {
+		s := g.lcsString()
+		if g.chance(0.3) && len(ops) > 0 {
+			// a variation of the first string: drop, double or change a few bytes
+			b := []byte(first)
+			for j := 0; j < 1+g.r.Intn(3) && len(b) > 0; j++ {
+				i := g.r.Intn(len(b))
+				switch g.r.Intn(3) {
+				case 0:
+					b = append(b[:i], b[i+1:]...)
+				case 1:
+					b = append(b[:i+1], b[i:]...)
+				default:
+					b[i] = "abz"[g.r.Intn(3)]
+				}
+			}
+			s = string(b)
+		}
+		ops = append(ops, mkOp(c, "SET", k2, s))
+	}
+	for j := 0; j < 1+g.r.Intn(4); j++ {
+		ops = append(ops, mkOp(c, g.lcsArgs(k1, k2)...))
+	}
+	return ops
+}
+
+// ---- SORT: a list or set of numbers / words, optional weight keys and hashes, every option ----
+func (g *Gen) sortMacro(c int) []Op {
+	src := g.key()
+	var ops []Op
+	numeric := g.chance(0.6)
+	pool := []string{"3", "1", "2.5", "-4", "10", "2", "02", "+7", "0.50", ".5", "1.", "-0", "100", "1"}
+	if !numeric {
+		pool = []string{"b", "a", "c", "aa", "B", "", "ab", "a", "10", "9", "\xff", "z"}
+	}
+	if g.chance(0.1) {
+		// clearly not numbers (forms that strtod and the model read differently - exponents, hex,
+		// inf, leading blanks - are outside the modelled domain and are not generated)
+		pool = append(pool, g.pick("abc", "--1", "1.2.3", "-", ".", "1a", "a1", "+-1", "1-"))
+	}
+	n := g.r.Intn(7)
+	var elems []string
+	for i := 0; i < n; i++ {
+		elems = append(elems, pool[g.r.Intn(len(pool))])
+	}
+	kind := g.r.Intn(10)
+	switch {
+	case n == 0 || kind == 0:
+		if g.chance(0.5) {
+			ops = append(ops, mkOp(c, "DEL", src))
+		}
+	case kind < 6:
+		ops = append(ops, mkOp(c, "DEL", src), mkOp(c, append([]string{"RPUSH", src}, elems...)...))
+	case kind < 9:
+		ops = append(ops, mkOp(c, "DEL", src), mkOp(c, append([]string{"SADD", src}, elems...)...))
+	default:
+		ops = append(ops, mkOp(c, "SET", src, "string"))
+	}
+	// weights and things to GET
+	for _, e := range elems {
+		if g.chance(0.5) {
+			ops = append(ops, mkOp(c, "SET", "w_"+e, g.pick("1", "2", "2", "-1", "0.5", "x", "b", "a", "")))
+		}
+		if g.chance(0.3) {
+			ops = append(ops, mkOp(c, "HSET", "h_"+e, "f", g.pick("1", "2", "3", "a", "b"), "g", g.pick("x", "y")))
+		}
+		if g.chance(0.1) {
+			ops = append(ops, mkOp(c, "RPUSH", "w_"+e, "notastring"))
+		}
+	}
+	for j := 0; j < 1+g.r.Intn(3); j++ {
+		a := []string{g.kw("sort"), src}
+		if g.chance(0.45) {
+			a = append(a, g.kw("BY"), g.pick("w_*", "w_*", "h_*->f", "h_*->g", "nosort", "w_*->", "*", "nokey_*", "h_*->nofield", "h_*", "w_*->f", ""))
+		}
+		if g.chance(0.35) {
+			a = append(a, g.kw("LIMIT"), g.pick("0", "1", "2", "-1", "5", "100", "9223372036854775807", "-9223372036854775808"),
+				g.pick("0", "1", "2", "3", "-1", "100", "x", "9223372036854775807", "9223372036854775806", "-9223372036854775808"))
+		}
+		for x := 0; x < g.r.Intn(3); x++ {
+			a = append(a, g.kw("GET"), g.pick("#", "w_*", "h_*->f", "h_*->g", "nostar", "h_*", "w_*->f", "*", "h_*->"))
+		}
+		if g.chance(0.4) {
+			a = append(a, g.kw(g.pick("ASC", "DESC", "DESC")))
+		}
+		if g.chance(0.5) != numeric {
+			a = append(a, g.kw("ALPHA"))
+		}
+		if g.chance(0.3) {
+			a = append(a, g.kw("STORE"), g.pick(g.key(), src, "dst", "dst", ""))
+		}
+		if g.chance(0.04) {
+			a = append(a, g.pick("BOGUS", "LIMIT", "GET", "BY", "STORE"))
+		}
+		ops = append(ops, mkOp(c, a...))
+		if a[len(a)-2] == "STORE" || a[len(a)-2] == "store" {
+			ops = append(ops, mkOp(c, "LRANGE", a[len(a)-1], "0", "-1"), mkOp(c, "TYPE", a[len(a)-1]), mkOp(c, "TTL", a[len(a)-1]))
+		}
+	}
+	return ops
+}
+
+
+// ---- INCRBYFLOAT / HINCRBYFLOAT inside the modelled domain: decimals with at most 6 fractional
+// digits and magnitude below 16 per step, sums kept below 30 (beyond that long double arithmetic
+// shows binary noise in the 17th place and the exact-decimal model no longer describes redis) ----
+func (g *Gen) smallDec() string {
+	switch g.r.Intn(8) {
+	case 0:
+		return g.pick("0", "1", "-1", "0.1", "0.2", "-0.3", "2.5", "-.5", ".25", "1.", "+1.5", "10", "-10", "0.000001", "3.0", "007")
+	case 1:
+		return fmt.Sprint(g.r.Intn(21) - 10)
+	}
+	frac := g.r.Intn(7)
+	v := g.r.Intn(2000000) - 1000000 // +-1.000000 scaled
+	str := strconv.FormatFloat(float64(v)/1e5, 'f', frac, 64)
+	if strings.Trim(str, "-0.") == "" {
+		return "0" // a negative zero prints differently on the two sides of the reply conversion: not generated
+	}
+	return str
+}
+
+func (g *Gen) floatMacro(c int, hash bool) []Op {
+	k := g.key()
+	var ops []Op
+	start := g.r.Intn(2)
+	if hash {
+		switch start {
+		case 0:
+			ops = append(ops, mkOp(c, "DEL", k))
+		case 1:
+			ops = append(ops, mkOp(c, "DEL", k), mkOp(c, "HSET", k, "f", g.smallDec(), "g", g.pick("abc", "", "1e", "1.2.3")))
+		}
+		for j := 0; j < 1+g.r.Intn(5); j++ {
+			f := g.pick("f", "f", "f", "g", "new")
+			if g.chance(0.08) {
+				ops = append(ops, mkOp(c, g.kw("hincrbyfloat"), k, f, g.pick("abc", "", "1.2.3", "--1")))
+			} else {
+				ops = append(ops, mkOp(c, g.kw("hincrbyfloat"), k, f, g.smallDec()))
+			}
+		}
+		ops = append(ops, mkOp(c, "HGETALL", k), mkOp(c, "TTL", k))
+		return ops
+	}
+	switch {
+	case start == 0:
+		ops = append(ops, mkOp(c, "DEL", k))
+	case g.chance(0.5):
+		ops = append(ops, mkOp(c, "SET", k, g.smallDec()))
+	default:
+		ops = append(ops, mkOp(c, "SET", k, g.smallDec(), "EX", "1000"))
+	}
+	for j := 0; j < 1+g.r.Intn(5); j++ {
+		if g.chance(0.08) {
+			ops = append(ops, mkOp(c, g.kw("incrbyfloat"), k, g.pick("abc", "", "1.2.3", "--1", "1 ")))
+		} else {
+			ops = append(ops, mkOp(c, g.kw("incrbyfloat"), k, g.smallDec()))
+		}
+	}
+	ops = append(ops, mkOp(c, "GET", k), mkOp(c, "TTL", k))
+	return ops
+}
+
 func (g *Gen) counterBoundary(c int) []Op {
 	k := g.key()
 	max := new(big.Int).Sub(new(big.Int).Lsh(big.NewInt(1), 63), big.NewInt(1))
